@@ -1,0 +1,35 @@
+//go:build verif
+
+package abci
+
+// Exports for the verification harness (/verif, property C01). Add-only, compiled only with
+// the `verif` build tag.
+
+// VerifWorkingRoots returns the state root and the provable-events root of the proposal that
+// is currently being executed (what prepareSystemTxs / validateSystemTxs compute).
+func (a *ApplicationServer) VerifWorkingRoots() ([]byte, []byte, error) {
+	sr, err := a.mux.state.workingStateRoot()
+	if err != nil {
+		return nil, nil, err
+	}
+	er, err := a.mux.computeProvableEventsRoot()
+	if err != nil {
+		return nil, nil, err
+	}
+	return sr[:], er, nil
+}
+
+// VerifResetProposal discards the working proposal state (resetProposal).
+func (a *ApplicationServer) VerifResetProposal() {
+	a.mux.state.resetProposal()
+}
+
+// VerifProposalState reports whether a proposal is cached, whether it has been executed, whether
+// it records proposer inputs, and its hash.
+func (a *ApplicationServer) VerifProposalState() (exists, executed, recorded bool, hash []byte) {
+	p := a.mux.state.proposal
+	if p == nil {
+		return false, false, false, nil
+	}
+	return true, !p.needsExecution(), p.header != nil, p.hash
+}
